@@ -21,7 +21,8 @@ META = dict(
     level_note=('Trusted: Coq kernel; extraction (ExtrOcamlBasic) cross-checked against vm_compute; the implementation driver and generator. '
                 'Modelled, not verified: the Python code itself (tied by the correspondence only). Not modelled: value specs (C03), '
                 'pg.Ref / inferential values (oracle-only sweep: every write path x reference to own tree / other tree, fresh / held elsewhere), '
-                'pg.Object\'s internal attribute Dict (collapsed into the object node; the oracle checks after every step that it forwards parent and path), origin tracking.'),
+                'pg.Object\'s internal attribute Dict (collapsed into the object node; the oracle checks after every step that it forwards parent and path), origin tracking. '
+                'Producers of trees (constructors, clone, copy, from_json(to_json)) x every nesting of Dict / List / Object are walked, and written into, by an oracle-only sweep.'),
     rule='a case is (forest literal, list of (scope stack, operation)); distinct by canonical text; non-trivial when at least one operation succeeds in changing a tree that has a nested symbolic node',
     trusted_base=['extraction: ExtrOcamlBasic only; ocaml/main.ml lexer/printer; cross-checked against vm_compute on a sample',
                   'implementation driver harness/props/symcore_driver.py (positions, snapshots, bookkeeping of removed nodes) and generator symcore_gen.py'],
@@ -314,6 +315,111 @@ def replay_ref(c):
   hits, _ = run_ref_case(c)
   return not hits
 
+# ----------------------------------------------------------------------------------------------------
+# Producers of trees (oracle only, every run): every way a tree comes into being -- constructors, clone shallow / deep, copy.copy / copy.deepcopy,
+# from_json(to_json()), from_json_str(to_json_str()) -- for every root kind x nested kinds (Dict / List / Object below each other, depth 1-3 below
+# the root; the innermost container holds a symbolic child and a leaf), followed by the full integrity walk (incl. the attribute-container clause)
+# on the RESULT, then by follow-up writes into every node of the produced tree (a new symbolic child; moving an existing child to another key /
+# position; taking a node out and putting it into a fresh container), with the walk after each.
+def _producer_shapes(max_len):
+  import itertools
+  for n in range(2, max_len + 1):
+    for seq in itertools.product('DLO', repeat=n):
+      yield ''.join(seq)
+
+def _build_shape(seq):
+  P = D.pg()
+  A, B, C = D.classes()
+  def mk(i):
+    inner = mk(i + 1) if i + 1 < len(seq) else P.Dict(leaf=1, n=P.Dict(z=0))
+    k = seq[i]
+    if k == 'D': return P.Dict(a=1, c=inner, s=P.List([2]))
+    if k == 'L': return P.List([1, inner, P.Dict(b=2)])
+    return B(x=inner, y=P.List([P.Dict(q=3)]), z=4)
+  return mk(0)
+
+def _producers():
+  import copy as _copy
+  P = D.pg()
+  return {
+      'constructor': lambda v: v,
+      'clone()': lambda v: v.clone(),
+      'clone(deep=True)': lambda v: v.clone(deep=True),
+      'copy.copy': _copy.copy,
+      'copy.deepcopy': _copy.deepcopy,
+      'from_json(to_json())': lambda v: P.from_json(v.to_json()),
+      'from_json_str(to_json_str())': lambda v: P.from_json_str(v.to_json_str()),
+      'from_json(to_json(), allow_partial=True)': lambda v: P.from_json(v.to_json(), allow_partial=True),
+  }
+
+def run_producer_case(case):
+  """Returns [(clause, what)] (first failure)."""
+  P = D.pg()
+  v0 = _build_shape(case['shape'])
+  try:
+    t = _producers()[case['producer']](v0)
+  except Exception as e:      # pylint: disable=broad-except
+    return [('producer-raises', '%s of shape %s raises %s: %s' % (case['producer'], case['shape'], type(e).__name__, str(e)[:120]))]
+  impl = D.Impl(); impl.roots.append(t)
+  if t is not v0:
+    impl.roots.append(v0)        # the source stays a well-formed tree of its own
+  h = check_forest(impl)
+  if h:
+    return [(h[0][0], 'right after %s of a tree of shape %s: %s' % (case['producer'], case['shape'], h[0][1]))]
+  nodes = []
+  D.walk(t, lambda n, p, k: nodes.append(n))
+  step = 0
+  with P.as_sealed(False), P.allow_writable_accessors(True):
+    for n in nodes:
+      writes = []
+      if isinstance(n, P.List):
+        writes = [('append(new Dict)', lambda n=n: n.append(P.Dict(nw=P.Dict(z=1)))), ('insert(0, leaf)', lambda n=n: n.insert(0, 7)),
+                  ('l[-1] = l[1] (copy of a sibling)', lambda n=n: n.__setitem__(-1, n[1]) if len(n) > 1 else None)]
+      elif isinstance(n, P.Dict):
+        writes = [('d[new] = new Dict', lambda n=n: n.__setitem__('nw', P.Dict(z=P.List([1])))),
+                  ('d[moved] = d.pop(first symbolic child)', lambda n=n: (lambda ks: n.__setitem__('moved', n.pop(ks[0])) if ks else None)([k for k, v in n.sym_items() if D.is_sym(v)]))]
+      else:
+        writes = [('rebind(y=new List of Dict)', lambda n=n: n.rebind(y=[P.Dict(nw=1)])), ('rebind(x=new Object)', lambda n=n: n.rebind(x=type(n)(x=P.Dict(deep=1))))]
+      for wname, w in writes:
+        step += 1
+        try:
+          w()
+        except Exception as e:    # pylint: disable=broad-except
+          return [('follow-up-raises', 'after %s of shape %s, %s on the node at %r raises %s' % (case['producer'], case['shape'], wname, str(n.sym_path), type(e).__name__))]
+        h = check_forest(impl)
+        if h:
+          return [(h[0][0], 'after %s of a tree of shape %s, follow-up write #%d %s into the %s at %r: %s' % (
+              case['producer'], case['shape'], step, wname, type(n).__name__, str(n.sym_path), h[0][1]))]
+    # take every depth-1 node out and put it into a fresh container: it must arrive well-formed
+    for k, v in list(t.sym_items()):
+      if D.is_sym(v):
+        holder = P.Dict()
+        holder['h'] = v           # has a parent: a copy is stored
+        himpl = D.Impl(); himpl.roots.extend([holder, t])
+        h = check_forest(himpl)
+        if h:
+          return [(h[0][0], 'after %s of shape %s, storing the child %r into a fresh Dict: %s' % (case['producer'], case['shape'], k, h[0][1]))]
+  return []
+
+def producer_sweep(ctx):
+  import time
+  t0 = time.time()
+  n = 0
+  for shape in _producer_shapes(ctx.scale(3, 4)):
+    for prod in _producers():
+      case = dict(kind='producer', shape=shape, producer=prod)
+      n += 1
+      ctx.evaluations += 1
+      for clause, what in run_producer_case(case):
+        ctx.hit('C01/%s/%s/%s' % (clause, 'producer:' + prod.split('(')[0], 'root-%s' % {'D': 'Dict', 'L': 'List', 'O': 'Object'}[shape[0]]), what, case)
+  ctx.extra['producer_sweep'] = dict(oracle_only=True, cases=n, producers=sorted(_producers()),
+                                     what='every producer of trees x every nesting of Dict / List / Object (root + %d levels): integrity walk (incl. attribute containers) on the result, '
+                                          'then follow-up writes into every node of the result (new children, moved children, copies of siblings, re-homing a child) with the walk after each' % (ctx.scale(3, 4) - 1))
+  ctx.log('producer sweep (oracle only): %d cases in %.1fs' % (n, time.time() - t0))
+
+def replay_producer(c):
+  return not run_producer_case(c)
+
 def replay_construction(c):
   class Ctx:
     hits = []
@@ -327,6 +433,7 @@ def replay_construction(c):
 def slice_sweep(ctx):
   construction_sweep(ctx)
   ref_sweep(ctx)
+  producer_sweep(ctx)
   import time
   from harness.props import symcore_gen as G
   t0 = time.time()
@@ -352,4 +459,6 @@ def replay(ctx, rp):
     return replay_construction(rp['case'])
   if isinstance(rp.get('case'), dict) and rp['case'].get('kind') == 'ref':
     return replay_ref(rp['case'])
+  if isinstance(rp.get('case'), dict) and rp['case'].get('kind') == 'producer':
+    return replay_producer(rp['case'])
   return D.replay_property(ctx, rp, Oracle)
